@@ -2,8 +2,8 @@ CONSTANTS
   MaxDepth = 7
   MaxEpochs = 1
   Inits = {"U", "I", "C", "S", "Z", "N0", "N3", "V0", "V3", "H0", "H3"}
-  Per = 1
-  Families = {"A", "D", "O", "P", "S", "F", "I"}
+  Per = 2
+  Families = {"A", "D", "O", "P", "S", "F", "I", "X"}
 INIT Init
 NEXT Next
 VIEW view
